@@ -113,6 +113,13 @@ CHECKS = {
         "Independent cell geometry computed in mc/props/c19.py.",
         "DESIGN.md 5 C19",
     ),
+    "C20": (
+        "exploration",
+        "exhaustive execution of a finite catalogue of documented preconditions with arguments inside, on and outside each boundary on both sides (three-valued: in / out / may), on the real constructors and mutators",
+        "~230 (row, argument) pairs over points/edges counts, corner/axis/side indexes, projection label counts, section length ratios, inner vs outer radius, radius-vector lean in both directions for five shape classes in two frames, chain lengths, contract/fill/chain preconditions, sketch face counts, clamps and links at (non-)vertices, second clamp, life-cycle misuse: outside => raises a library / Value / Lookup / Runtime error, inside => does not raise.",
+        "The catalogue is hand-collected (mc/props/c20.py); an undocumented precondition is not in it.",
+        "DESIGN.md 5 C20",
+    ),
     "C02": (
         "model_checking",
         "stateless model checking of the implementation: choice-point explorer over set iteration orders (iterative deviation bounding) x exhaustive insertion orders / corner numberings / chop placements of small lattice assemblies, edge-family reference model",
